@@ -177,7 +177,8 @@ def stage_spec(module_rel, dest):
 
 def _tlc_cmd(module, cfg, workers, extra, xmx):
     return ["java", "-XX:+UseParallelGC", "-Xmx%s" % xmx, "-cp", TLC_CP, "tlc2.TLC", "-workers", str(workers),
-            "-noGenerateSpecTE", "-config", cfg] + list(extra) + [module]
+            "-noGenerateSpecTE", "-checkpoint", "0", "-config", cfg] + list(extra) + [module]   # no periodic checkpoints: the
+    # depth-first state queue (StateDeque) cannot be checkpointed and a run longer than 30 min would abort
 
 
 _RE_STATES = re.compile(r"(\d+) states generated, (\d+) distinct states found, (\d+) states left on queue")
